@@ -151,4 +151,28 @@ theorem skel_NewCSRF_ok : skel_NewCSRF = ([
   "return nil, err",
   "return &csrf{ OAuthState: state, OIDCNonce: nonce, CodeVerifier: co, nil"] : List String) := rfl
 
+theorem skel_decodeState_ok : skel_decodeState = ([
+  "if encode",
+  "base64.RawURLEncoding.DecodeString",
+  "if len(parsedState) != 2",
+  "return \"\", \"\", errors.New(\"invalid length\")",
+  "errors.New",
+  "return parsedState[0], parsedState[1], nil"] : List String) := rfl
+
+theorem skel_encodeState_ok : skel_encodeState = ([
+  "fmt.Sprintf",
+  "if encode",
+  "return base64.RawURLEncoding.EncodeToString([]byte(rawString))",
+  "base64.RawURLEncoding.EncodeToString",
+  "return rawString"] : List String) := rfl
+
+theorem skel_ProviderData_LoginURLParams_ok : skel_ProviderData_LoginURLParams = ([
+  "if len(overrides) > 0",
+  "if ok",
+  "if re.MatchString(val)",
+  "re.MatchString",
+  "if len(actualValues) > 0",
+  "params.Del",
+  "return params"] : List String) := rfl
+
 end O2P.Expect.C03
